@@ -30,6 +30,7 @@ META = {
         "interleavings inside a single bytecode's C implementation and with 4+ threads are reached only by the stress runner",
         "a worker that makes no step for the grace period is treated as blocked on a lock (token handed back, schedule tagged degraded, no verdict from the time-out)",
     ],
+    "prelude": False,
     "min_distinct": {"quick": 20000, "thorough": 400000},
     "shard_timeout": {"quick": 900, "thorough": 3600},
     "reach": False,
@@ -571,6 +572,7 @@ def run_solo(shard, mon, S, p):
 def run_shard(shard, out_base):
     mon = Mon("C14")
     S = judge.lib()
+    calls.capture_warnings()
     p = the_pool(shard["tier"], shard.get("pool_file"))
     {"explore": run_explore, "stress": run_stress, "cold": run_cold, "solo": run_solo, "coldsched": run_coldsched, "fresh": run_fresh_explore}[shard["kind"]](shard, mon, S, p)
     return mon.result(out_base)
